@@ -78,8 +78,13 @@ func v1ParseConfig(rd io.Reader) (Config, error) {
 func (c *V1GenerateSettings) ValidateGlobalOverrides() error {
 	engines := map[Engine]struct{}{}
 	for _, pkg := range c.Packages {
-		if _, ok := engines[pkg.Engine]; !ok {
-			engines[pkg.Engine] = struct{}{}
+		engine := pkg.Engine
+		if engine == "" {
+			// the default engine is only filled in after this validation
+			engine = EnginePostgreSQL
+		}
+		if _, ok := engines[engine]; !ok {
+			engines[engine] = struct{}{}
 		}
 	}
 
